@@ -2,7 +2,10 @@ package props
 
 import (
 	"fmt"
+	"math"
+	"math/big"
 	"sort"
+	"strconv"
 	"strings"
 
 	"github.com/trustbloc/sidetree-core-go/pkg/commitment"
@@ -108,7 +111,7 @@ func reserializations(v interface{}) [][]byte {
 
 func c08(r *hx.Run) {
 	fx.Quiet()
-	r.Rule = "(A) create requests over {2 documents} x {anchor origin absent/string/object} x {type absent/present} x 2 hash algorithms x 5 key types, each in 36 re-serializations (member order x whitespace x escape spelling): the real parser must accept each and derive the same suffix; suffix data / delta / key models hashed through the library in every re-serialization must equal the independent hash; (B) commitment == hash of decoded reveal value == independent double hash for every key, nonce and algorithm; (C) IsValidModelMultihash accepts exactly the correct multihash string among: correct under either algorithm, other model's digest, every single-character substitution, truncations, embedded CR/LF, wrong code; (D) long-form DID through a real DocumentHandler with an empty store: valid resolves; every single-character substitution of the initial-state and suffix segments, every single-member alteration re-encoded canonically, a non-canonical encoding and swapped initial states are rejected. Non-trivial: distinct inputs that reach the hash comparison."
+	r.Rule = "(A) create requests over {2 documents} x {anchor origin absent/string/object} x {type absent/present} x 2 hash algorithms x 5 key types, each in 36 re-serializations (member order x whitespace x escape spelling): the real parser must accept each and derive the same suffix; suffix data / delta / key models hashed through the library in every re-serialization must equal the independent hash; (B) commitment == hash of decoded reveal value == independent double hash for every key, nonce and algorithm; (C) IsValidModelMultihash accepts exactly the correct multihash string among: correct under either algorithm, other model's digest, every single-character substitution, truncations, embedded CR/LF, wrong code; (D) long-form DID through a real DocumentHandler with an empty store: valid resolves; every single-character substitution of the initial-state and suffix segments, every single-member alteration re-encoded canonically, a non-canonical encoding and swapped initial states are rejected; (E) 31 numbers at the formatting boundaries (1e21, 1e-6, 2^53.., subnormal, max) each in up to 6 spellings and 22 strings of every escape class, as values and as member names inside a create's delta: library hash == hash of the independent RFC 8785 form for every spelling, the hash of a non-canonical spelling is not accepted, the create is accepted with the independent suffix, the canonical long form resolves and a long form with another number spelling does not. Non-trivial: distinct inputs that reach the hash comparison."
 	client, v256 := stdClient()
 	p512 := fx.DefaultProtocol()
 	p512.MultihashAlgorithms = []uint{fx.SHA512, fx.SHA256} // the suffix is computed with the protocol's first algorithm
@@ -427,6 +430,137 @@ func c08(r *hx.Run) {
 		}
 		r.Sample(hx.Trunc(did, 100))
 	}
+	// ---------- (E) content classes: numbers at every formatting boundary in several spellings, strings of every escape class,
+	// as values and as member names inside the delta of a create request
+	handler = handlers[fx.SHA256]
+	type content struct {
+		label string
+		val   interface{}
+		spell []string // for numbers: alternative spellings of the same value
+	}
+	var contents []content
+	for _, f := range []float64{1e21, math.Nextafter(1e21, 0), math.Nextafter(1e21, 2e21), 1e-6, math.Nextafter(1e-6, 0), math.Nextafter(1e-6, 1), 1e-7, 0, 1, -1, 1.5, -1.5, 0.1,
+		100, 1e20, 999999999999999900000, 9007199254740992, 9007199254740994, 1152921504606846976, -4611686018427387904, 9223372036854775808, 18446744073709551616,
+		123456789012345680000, 1e300, 5e-324, 1.7976931348623157e308, 2.2250738585072014e-308, 4.35, 0.000001234, 1e-10, 333333333.33333329} {
+		c := content{label: "num|" + strconv.FormatFloat(f, 'g', -1, 64), val: f}
+		seen := map[string]bool{string(jcs.MustCanon(f)): true}
+		add := func(sp string) {
+			if !seen[sp] {
+				seen[sp] = true
+				c.spell = append(c.spell, sp)
+			}
+		}
+		add(strconv.FormatFloat(f, 'e', -1, 64))
+		add(strings.ToUpper(strconv.FormatFloat(f, 'e', -1, 64)))
+		if math.Abs(f) < 1e25 && math.Abs(f) > 1e-12 || f == 0 {
+			add(strconv.FormatFloat(f, 'f', -1, 64))
+			if f == math.Trunc(f) {
+				add(strconv.FormatFloat(f, 'f', 1, 64))
+				add(new(big.Float).SetFloat64(f).Text('f', 0)) // every digit of the exact integer
+			}
+		}
+		if f == 0 {
+			add("-0")
+			add("0e0")
+			add("-0.0")
+		}
+		contents = append(contents, c)
+	}
+	for i, str := range []string{"", "%", "100% %s %d %%", "\u007f", "\u2028\u2029", "\U0001F600", "\ue000", "\uffff", "\U0001F600\ue000", "\u0000\u001f", "\b\f\n\r\t", "\"\\/", "é", "a\u0301",
+		"\u00e9", "<>&'", "\ufeff", "\u200b", "\U00010000", "\U0010FFFF", "\u0080\u009f", "\ud7ff"} {
+		contents = append(contents, content{label: fmt.Sprintf("str|%d", i), val: str})
+	}
+	rk, uk := fx.NewKey(fx.Ed25519, "c08/r"), fx.NewKey(fx.Ed25519, "c08/u")
+	hx.ParallelFor(len(contents), func(ci int) {
+		c := contents[ci]
+		payloads := map[string]interface{}{"value": map[string]interface{}{"v": []interface{}{c.val}}}
+		if str, ok := c.val.(string); ok && str != "" {
+			// as member names next to names that sort differently by UTF-16 code unit and by code point
+			payloads["name"] = map[string]interface{}{str: 1.0, "\U0001F600": 2.0, "\ue000": 3.0, "a": 4.0, "": 5.0}
+		}
+		for pname, payload := range payloads {
+			spec := &fx.CreateSpec{RecoveryCommit: fx.Commit(rk, fx.SHA256), UpdateCommit: fx.Commit(uk, fx.SHA256), Code: fx.SHA256,
+				Patches: []interface{}{fx.JSONPatch(fx.JOp("add", "/x", payload)), fx.AddServicePatch("s1", "https://example.com/a")}}
+			req, suffix := fx.Create(spec)
+			tree := fx.MustJSON(string(req)).(map[string]interface{})
+			delta := tree["delta"]
+			canonDelta := jcs.MustCanon(delta)
+			want := fx.Multihash(fx.SHA256, canonDelta)
+			tag := "E|" + c.label + "|" + pname
+			r.State()
+			texts := map[string][]byte{"canonical": req}
+			deltaTexts := map[string][]byte{"canonical": canonDelta}
+			if f, ok := c.val.(float64); ok {
+				tok := "[" + string(jcs.MustCanon(f)) + "]"
+				if strings.Count(string(req), tok) != 1 || strings.Count(string(canonDelta), tok) != 1 {
+					panic("number token is not unique in the request: " + tok)
+				}
+				for _, sp := range c.spell {
+					texts["spelled "+sp] = []byte(strings.Replace(string(req), tok, "["+sp+"]", 1))
+					deltaTexts["spelled "+sp] = []byte(strings.Replace(string(canonDelta), tok, "["+sp+"]", 1))
+				}
+			}
+			for name, dt := range deltaTexts {
+				caseID := tag + "|hash|" + name
+				if !r.Want(caseID) {
+					continue
+				}
+				got, err := hashing.CalculateModelMultihash(dt, fx.SHA256)
+				r.Eval()
+				r.Trans(1)
+				r.Nontrivial(caseID)
+				if err != nil || got != want {
+					r.Violation("content-hash-is-not-hash-of-canonical-form", caseID, fmt.Sprintf("delta %s: library hash %s (%v), hash of the RFC 8785 form %s\ncanonical: %s", hx.Trunc(string(dt), 200), got, err, want, hx.Trunc(string(canonDelta), 200)), map[string]interface{}{"delta": string(dt)})
+				}
+				if e := hashing.IsValidModelMultihash(dt, want); e != nil {
+					r.Violation("content-valid-hash-rejected", caseID, e.Error(), map[string]interface{}{"delta": string(dt)})
+				}
+				if name != "canonical" { // the hash of the bytes as spelled is not the hash of the canonical form
+					if e := hashing.IsValidModelMultihash(dt, fx.Multihash(fx.SHA256, dt)); e == nil {
+						r.Violation("content-noncanonical-hash-accepted", caseID, "the hash of a non-canonical spelling is accepted as the model's hash: "+hx.Trunc(string(dt), 200), map[string]interface{}{"delta": string(dt)})
+					}
+				}
+			}
+			for name, txt := range texts {
+				caseID := tag + "|parse|" + name
+				if !r.Want(caseID) {
+					continue
+				}
+				op, err := v256.Parser.Parse(ns, txt)
+				r.Eval()
+				r.Trans(1)
+				r.Nontrivial(caseID)
+				if err != nil {
+					r.Violation("content-create-rejected", caseID, fmt.Sprintf("create with correctly hashed content rejected: %v\n%s", err, hx.Trunc(string(txt), 300)), map[string]interface{}{"request": string(txt)})
+				} else if op.UniqueSuffix != suffix {
+					r.Violation("content-suffix", caseID, fmt.Sprintf("suffix %s, independent %s", op.UniqueSuffix, suffix), map[string]interface{}{"request": string(txt)})
+				}
+			}
+			// long form: the canonical encoding resolves; an encoding with another number spelling does not
+			did, _, _, lt := longForm(spec)
+			if caseID := tag + "|long|canonical"; r.Want(caseID) {
+				r.Nontrivial(caseID)
+				if !resolves(caseID, did) {
+					r.Violation("content-long-form-rejected", caseID, "canonically encoded long-form DID does not resolve; initial state "+hx.Trunc(string(jcs.MustCanon(lt)), 300), map[string]interface{}{"did": did})
+				}
+			}
+			if f, ok := c.val.(float64); ok {
+				tok := "[" + string(jcs.MustCanon(f)) + "]"
+				for _, sp := range c.spell {
+					caseID := tag + "|long|spelled " + sp
+					if !r.Want(caseID) {
+						continue
+					}
+					r.Nontrivial(caseID)
+					d := ns + ":" + suffix + ":" + fx.B64([]byte(strings.Replace(string(jcs.MustCanon(lt)), tok, "["+sp+"]", 1)))
+					if resolves(caseID, d) {
+						r.Violation("long-form-accepts:non-canonical-number", caseID, "long-form DID whose initial state spells a number non-canonically resolves: "+sp, map[string]interface{}{"did": d})
+					}
+				}
+			}
+		}
+		r.Sample("E|" + c.label)
+	})
 	r.Assumptions = append(r.Assumptions,
 		"in quick, the initial-state segment is substituted at every position with every 4th alphabet character (offset rotating with the position); thorough uses all 63 substitutes",
 		"a long-form DID 'resolves' when DocumentHandler.ResolveDocument returns a result without error against an empty operation store")
